@@ -96,13 +96,17 @@ type Model struct {
 	corked                   int   // frames buffered by MsgSend under manual flush
 	flushedOnce              bool
 	calls                    int
+
+	// WriterBusy is set by a driver while a call is parked inside the transport (it holds the
+	// stream's write side): the stream cannot be finished meanwhile.
+	WriterBusy bool
 }
 
 // Terminated / Finished are the observable flags.
 func (m *Model) Terminated() bool { return m.term != "" }
 
 // Finished holds when the stream is terminated and no operation is in flight.
-func (m *Model) Finished() bool { return m.term != "" && len(m.receivers) == 0 }
+func (m *Model) Finished() bool { return m.term != "" && len(m.receivers) == 0 && !m.WriterBusy }
 
 // InFlight is the number of parked calls (receivers and an undelivered packet).
 func (m *Model) InFlight() int {
@@ -112,6 +116,17 @@ func (m *Model) InFlight() int {
 	}
 	return n
 }
+
+// SendClass is the result class a send reports in the current state ("" = it proceeds).
+func (m *Model) SendClass() Class {
+	if m.send == "" {
+		return ""
+	}
+	return m.sendErr()
+}
+
+// CancelClass is the class of the cancel signal ("" = unset).
+func (m *Model) CancelClass() Class { return errClass(m.cancel) }
 
 // Enabled applies the calling contract: one packet handler at a time.
 func (m *Model) Enabled(op Op) bool {
